@@ -275,11 +275,7 @@ class Interp:
         m = re.match(r'^\{(alloc\d+): (.*)\}$', path)
         if m and m.group(1) in self.prog.alloc_static:
             sname = self.prog.alloc_static[m.group(1)]
-            cell = self.prog.static_cells.get(sname)
-            if cell is None:
-                cands = [n for n, g in self.prog.fns.items() if g.kind != 'fn' and (n == sname or n.endswith('::' + sname))]
-                if len(cands) != 1: raise Unsupported('static %s' % sname)
-                cell = [self.eval_const_item(cands[0])]; self.prog.static_cells[sname] = cell
+            cell = self.static_cell(sname)
             return Ref(cell, 0) if m.group(2).lstrip().startswith('&') else cell[0]
         m = re.match(r'^<(.+) as (.+)>::(\w+)$', substitute_text(path, substs))
         if m and m.group(3) in self.prog.assoc_consts:
@@ -294,6 +290,16 @@ class Interp:
         if sc is None and base.split('::')[-1] == 'RangeFull': sc = Agg('RangeFull', [])
         if sc is not None: return sc
         return FnRef(substitute_text(path, substs), dict(substs))
+
+    def static_cell(self, sname):
+        """the (mutable) storage of a static / thread-local item: one per interpreter = per execution, never shared between paths"""
+        st = self.__dict__.setdefault('statics', {})
+        cell = st.get(sname)
+        if cell is None:
+            cands = [n for n, g in self.prog.fns.items() if g.kind != 'fn' and (n == sname or n.endswith('::' + sname) or sname.endswith('::' + n))]
+            if len(cands) != 1: raise Unsupported('static %s (%d candidates)' % (sname, len(cands)))
+            cell = [self.eval_const_item(cands[0])]; st[sname] = cell
+        return cell
 
     def eval_const_item(self, name, substs=None):
         ck = name if not substs else (name, tuple(sorted(substs.items())))
@@ -455,6 +461,7 @@ class Interp:
         if k == 'closure':
             return Agg(rv[1], [self.operand(fr, o) for o in rv[2].values()], dict(fr.substs))
         if k == 'adt': return self.make_adt(fr, rv[1], rv[2])
+        if k == 'tlsref': return Ref(self.static_cell(rv[1]), 0)
         if k == 'cast': return self.cast(fr, rv[1], rv[2], rv[3])
         if k == 'shallow_init_box': return RBox(UNINIT)
         raise Unsupported('rvalue ' + k)
